@@ -396,8 +396,11 @@ class Gen:
                 out.append(Stmt("var", scope, d=d, expr=("bin", "+", ("ref", d, None), ("num", rng.randrange(1, 5), None)), redefinition=True))
                 out.append(Stmt("data", scope, size=".byte", exprs=[("ref", d, None)]))
                 self.nbytes += 2
-            elif r < 0.76 and not self.prog.has_segments and depth == 0 and not in_macro and not in_import and rng.random() < k["p_setpc"]:
-                out.append(Stmt("setpc", scope, delta=rng.choice([1, 3, 16, 0x20, 0x100])))
+            elif r < 0.76 and depth == 0 and not in_macro and not in_import and rng.random() < k["p_setpc"]:
+                # (`* = * + n` skips n bytes; inside a segment - also one with a `pc` of its own - only a few, segments lie close together)
+                delta = rng.choice([1, 3, 16, 0x20, 0x100]) if not self.prog.has_segments else rng.choice([1, 2, 3])
+                out.append(Stmt("setpc", scope, delta=delta))
+                self.nbytes += delta if self.prog.has_segments else 0
             elif r < 0.79 and rng.random() < k["p_align"]:
                 out.append(Stmt("align", scope, n=rng.choice([2, 4, 8, 16, 3])))
                 self.nbytes += 8
